@@ -8,6 +8,7 @@ import (
 	"bytes"
 	"crypto/ed25519"
 	"fmt"
+	"io"
 	"strings"
 
 	"github.com/biscuit-auth/biscuit-go/v2"
@@ -700,15 +701,31 @@ func runC17(c *Ctx) {
 	for i := 0; i < n; i++ {
 		g := newScenGen(r, 0)
 		same := g.block(r.Intn(3), 0, 0)
-		spec := TokenSpec{Blocks: []Block{same}}
+		// half of the histories draw their randomness from a source that delivers it a few
+		// bytes per Read (fresh randomness all the same)
+		short := r.Chance(1, 2)
+		spec := TokenSpec{Blocks: []Block{same}, Short: short, ViaNew: r.Chance(1, 3)}
 		t0, err := buildTokenSpec(spec, r.Fork())
 		if err != nil {
 			continue
 		}
-		rd := &detRand{r.Fork()}
+		var rd io.Reader = &detRand{r.Fork()}
+		if short {
+			rd = &shortRand{r.Fork()}
+			c.Count("short-read-source")
+		}
 		nextEvent++
 		fam := []live{withRaw(live{tok: t0, ids: t0.RevocationIds(), ev: []int{nextEvent}})}
 		identical := false
+		// further tokens issued with the very same authority content: separate signing events
+		for k, m := 0, r.Intn(4); k < m; k++ {
+			if tk, err := buildTokenSpec(spec, r.Fork()); err == nil {
+				nextEvent++
+				fam = append(fam, withRaw(live{tok: tk, ids: tk.RevocationIds(), ev: []int{nextEvent}}))
+				identical = true
+				c.Eval()
+			}
+		}
 		steps := 2 + r.Intn(11)
 		forkAgain := -1
 		for s := 0; s < steps; s++ {
